@@ -219,11 +219,116 @@ def rule_option_readers(facts):
     return r
 
 
+def rule_limit_rejections(facts):
+    """`behaves exactly as without a limit whenever the window needed never exceeds m`: the limit may turn a decode into an
+    error only where the buffer is about to grow.  Any other error that is built behind a test on a limit-derived value
+    (a pre-check against the dictionary size, the announced size, ...) refuses streams that fit."""
+    r = report.RuleResult("C10.R4", "no error is control-dependent on the limit outside the growth test")
+    from engine.flow import PosTerms
+    bodies = [b for b in facts.bodies if b.promoted is None and b.file.startswith("src/")]
+    # limit-carrying fields (by name, started from Options.memlimit) and parameters (by position), to a fixpoint
+    tfields = {"memlimit"}
+    tparams = {}
+    terms = {}
+
+    def tm_of(b):
+        if b.defk not in terms:
+            terms[b.defk] = Terms(b)
+        return terms[b.defk]
+
+    # the limit as a value: through arithmetic, casts, comparisons and std's value combinators - not through the result of
+    # a crate function (a window built with the limit is not "the limit"; what the callee does with it is judged there)
+    VALUE_FNS = ("std::option::Option::", "std::result::Result::", "std::cmp::", "core::num::", "std::convert::", "std::ops::")
+
+    def walk(t, tp):
+        if not isinstance(t, tuple) or not t:
+            return False
+        if not isinstance(t[0], str):
+            return any(walk(x, tp) for x in t)
+        if t[0] == "field" and t[1] in tfields and not (len(t) > 2 and isinstance(t[2], tuple) and t[2] and t[2][0] == "call"):
+            return True
+        if t[0] == "arg" and t[1] in tp:
+            return True
+        if t[0] == "call":
+            if not str(t[1]).startswith(VALUE_FNS):
+                return False
+            return walk(t[2], tp)
+        return any(walk(x, tp) for x in t[1:] if isinstance(x, tuple))
+
+    def tainted(b, t):
+        return walk(t, tparams.get(b.defk, ()))
+
+    changed = True
+    rounds = 0
+    while changed and rounds < 8:
+        changed = False
+        rounds += 1
+        for b in bodies:
+            tm = tm_of(b)
+            for blk in b.blocks:
+                if blk.cleanup:
+                    continue
+                for st in blk.stmts:
+                    if st.k != "assign":
+                        continue
+                    if st.place.proj and st.place.proj[-1][0] == "field" and st.place.proj[-1][2] and st.place.proj[-1][2] not in tfields:
+                        if tainted(b, tm.of_rvalue(st.rv, 0)):
+                            tfields.add(st.place.proj[-1][2])
+                            changed = True
+                    if st.rv.k == "aggregate" and st.rv.agg == "adt" and not st.rv.adt_name.startswith(("std::", "core::")):
+                        adt = facts.adt(st.rv.adt_name)
+                        if adt and len(adt["variants"]) == 1:
+                            for i, op in enumerate(st.rv.ops):
+                                fnm = adt["variants"][0]["fields"][i]["name"] if i < len(adt["variants"][0]["fields"]) else None
+                                if fnm and fnm not in tfields and tainted(b, tm.of_operand(op)):
+                                    tfields.add(fnm)
+                                    changed = True
+                if blk.term.k == "call" and blk.term.callee is not None and blk.term.callee.target().local:
+                    cb = facts.by_def.get(blk.term.callee.target().defk)
+                    if cb is None:
+                        continue
+                    for i, a in enumerate(blk.term.args):
+                        if tainted(b, tm.of_operand(a)) and (i + 1) not in tparams.get(cb.defk, set()):
+                            tparams.setdefault(cb.defk, set()).add(i + 1)
+                            changed = True
+    n = 0
+    for b in bodies:
+        tp = tparams.get(b.defk, set())
+        from rules.C02 import explicit_rejections
+        rej = explicit_rejections(b)
+        if not rej:
+            continue
+        c = cfg(b)
+        pt = PosTerms(b)
+        term_at = lambda b_: pt.at(b_.idx, None).of_operand(b_.term.discr)
+        grows = [x.idx for x in b.calls() if any(g in (flow.callee(x.term) or "") for g in GROW)]
+        for bb, var in rej:
+            if bb not in c.reach:
+                continue
+            conds = pat.branch_conditions(b, c, bb, term_at)
+            lim = [(gb, t) for (gb, t, cond) in conds if tainted(b, t)]
+            if not lim:
+                continue
+            n += 1
+            # the growth test: the same test's other edge leads to the growth of the buffer
+            bad = [(gb, t) for (gb, t) in lim if not any(c.dominates(gb, g) for g in grows)]
+            if not bad:
+                r.ok("growth-test", {"fn": short(b.name)})
+            else:
+                r.bad("%s|limit-rejection" % short(b.name), "an error is built behind a test on the memory limit (%s) in a function that does not "
+                      "grow the window there: streams whose needed window fits the limit can be refused" % flow.show(bad[0][1])[:120],
+                      pat.where(b, bb))
+    r.sites = n
+    r.notes.append("limit-carrying fields: %s; functions receiving the limit: %d" % (sorted(tfields), len(tparams)))
+    r.need("the growth tests themselves are seen as limit-dependent rejections (found %d)" % n, n >= 2)
+    return r
+
+
 def run(ctx, t0):
     facts = ctx.facts()
     r2, r3 = rule_guard(facts)
-    rules = [rule_plumbing(facts), r2, r3, rule_option_readers(facts)]
+    rules = [rule_plumbing(facts), r2, r3, rule_option_readers(facts), rule_limit_rejections(facts)]
     expl = ("Static: provenance of the limit argument at every construction of the window, who-may-grow enumeration of "
             "the buffer with dominance of the limit test and equality of the tested and the grown length, who-reads "
-            "enumeration of the limit field.")
+            "enumeration of the limit field; limit taint (fields by name, parameters by position) against the guards of every error construction.")
     return report.finish(PROP, ctx.tier, rules, expl, [], TRUSTED, t0, None, ctx.seed)
